@@ -12,8 +12,8 @@ RULE = ("degenerate-world catalogue (1- and 2-label queries, duplicate positions
         "2-label references, reference shorter than the secondary margin, unlabelled molecules, far-apart labels, only-unalignable "
         "files, molecules aligned only in their middle with short / long unplaceable heads and tails, "
         "files) x {degenerate alone, degenerate + good neighbour, neighbour alone} x parameter settings with <= 1 (quick) / <= 2 "
-        "(thorough) deviations from the defaults (menus respect the option help: -md >= -r1, -su <= 0, -ms > 0) x modes; one real "
-        "CLI subprocess per catalogue world; non-trivial = run contains a degenerate molecule and non-default parameters or produces "
+        "(thorough) deviations from the defaults; two real CLI runs per world in rotating shell shapes (-o without extension in a dotted directory, -o x.txt, CMAP through a pipe, XMAP on standard output), their files judged like the others; "
+        "menus respect the option help (-md >= -r1, -su <= 0, -ms > 0); x modes; non-trivial = run contains a degenerate molecule and non-default parameters or produces "
         "a zero-record file; distinct by (world, variant, setting, mode)")
 ASSUMPTIONS = ["per-run wall cap 60 s stands for 'terminates'", "parameter menus are the ones listed in DESIGN.md 4/C07"]
 THOROUGH_CAP_S = 2400.0
@@ -173,19 +173,35 @@ def check_case(wi, setting, mode, acc, cat=None):
     return found
 
 
-def check_cli(wi, acc, cat=None):
+SHELL = [dict(), dict(out_name='results.v2/alignment'), dict(out_name='aligned.txt'), dict(pipe='query'), dict(pipe='reference'), dict(to_stdout=True)]
+
+
+def check_cli(wi, acc, cat=None, shape=None):
+    """the real entry point the way a shell user calls it: -o without an extension inside a directory whose name has a dot, -o with
+    another extension, a CMAP arriving through a pipe (/dev/stdin), the XMAP printed on standard output"""
     cat = cat or catalogue()
     name, refs, degs, good = cat[wi][:4]
     wargs = list(cat[wi][4]) if len(cat[wi]) > 4 else []
     qs = list(degs) + ([good] if good is not None else [])
     found = []
-    case = dict(world=wi, name=name, cli=True)
-    rc, err, files = driver.run_cli(dict(refs=refs, queries=qs), 'all', extra=wargs, cpus=(2, 3, 16)[wi % 3])
+    shape = wi % len(SHELL) if shape is None else shape
+    kw = SHELL[shape]
+    mode = 'best' if kw.get('to_stdout') else 'all'
+    case = dict(world=wi, name=name, cli=True, shape=shape)
+    w = dict(refs=refs, queries=qs)
+    rc, err, files = driver.run_cli(w, mode, extra=wargs, cpus=(2, 3, 16)[wi % 3], **kw)
+    sig = {'shape': sorted(kw) or ['plain']}
     if rc != 0 or 'Traceback' in err:
         last = [l for l in err.strip().splitlines() if l.strip()][-1:] or ['']
-        found.append(('cli-aborted', '%s: exit %s: %s' % (name, rc, last[0][:300]), 'cli', {'error': last[0].split(':')[0]}))
-    elif sorted(files) != ['_1', '_2', 'main']:
-        found.append(('cli-files-missing', str(sorted(files)), 'cli', {}))
+        found.append(('cli-aborted', '%s %s: exit %s: %s' % (name, kw, rc, last[0][:300]), 'cli', dict(sig, error=last[0].split(':')[0])))
+    elif sorted(files) != (['main'] if kw.get('to_stdout') else ['_1', '_2', 'main']):
+        found.append(('cli-files-missing', '%s: %s' % (kw, sorted(files)), 'cli', sig))
+    else:
+        obs = driver.Observation()
+        obs.files = files
+        probs, zero = file_problems(w, obs)
+        for s_, d in probs:
+            found.append((s_, '%s %s [cli] %s' % (name, kw, d), 'files', sig))
     if acc is not None:
         acc.evals += 1
         acc.transitions += 1
@@ -202,9 +218,9 @@ class Degenerate(core.Layer):
         self.sets, self.modes, self.with_cli = sets, modes, with_cli
         self.items = [(wi, si) for wi in range(len(self.cat)) for si in range(len(sets))]
         if with_cli:
-            self.items += [(wi, 'cli') for wi in range(len(self.cat))]
+            self.items += [(wi, 'cli') for wi in range(len(self.cat))] + [(wi, 'cli2') for wi in range(len(self.cat))]
         self.bounds = dict(worlds=[c[0] for c in self.cat], settings=len(sets), modes=list(modes), parameter_menu=MENU,
-                           cli_runs=len(self.cat) if with_cli else 0)
+                           cli_runs=2 * len(self.cat) if with_cli else 0, cli_shapes=['-o x.xmap', '-o dir.v2/name', '-o name.txt', 'query piped', 'reference piped', 'stdout'])
         self.rule = '%d catalogue worlds x up to 3 variants x %d settings x %d modes' % (len(self.cat), len(sets), len(modes))
 
     def nblocks(self):
@@ -212,9 +228,9 @@ class Degenerate(core.Layer):
 
     def run_block(self, b, acc):
         wi, si = self.items[b]
-        if si == 'cli':
+        if si in ('cli', 'cli2'):
             acc.seq += 1
-            check_cli(wi, acc, self.cat)
+            check_cli(wi, acc, self.cat, None if si == 'cli' else (wi + 3) % len(SHELL))
             return
         for mode in self.modes:
             acc.seq += 1
@@ -222,7 +238,7 @@ class Degenerate(core.Layer):
 
     def replay(self, case):
         if case.get('cli'):
-            return check_cli(case['world'], None)
+            return check_cli(case['world'], None, None, case.get('shape'))
         return check_case(case['world'], tuple(case['setting']), case['mode'], None)
 
 
